@@ -149,10 +149,12 @@ Section Sound.
       + split; [exact HN|left; reflexivity].
       + apply andb_true_iff in HN. destruct HN as [HN C]. apply andb_true_iff in HN.
         destruct HN as [A B]. split; [exact A|]. right. exists c. repeat split; auto.
-        intro E. rewrite E in C.
-        assert (X : optN_eqb (sg_of p c) (sg_of p c) = true).
-        { destruct (sg_of p c); simpl; [apply N.eqb_refl|reflexivity]. }
-        rewrite X in C. discriminate.
+        apply orb_true_iff in C. destruct C as [C|C].
+        * left. intro E. rewrite E in C.
+          assert (X : optN_eqb (sg_of p c) (sg_of p c) = true).
+          { destruct (sg_of p c); simpl; [apply N.eqb_refl|reflexivity]. }
+          rewrite X in C. discriminate.
+        * right. destruct (n_delay n); [discriminate|discriminate].
   Qed.
 
   Lemma W5_sound : W5_b T p = true -> W5 T p.
